@@ -77,6 +77,10 @@ type eventOwner struct {
 	notify    bool
 	consumers int32
 
+	// serializes [buffer push, consumer snapshot] of a publisher with
+	// [relation insert, buffer snapshot] of a new subscriber. "last" is a flushing
+	// queue, it tolerates neither concurrent Push nor Item during a Push
+	lock sync.Mutex
 	last lib.QueueMPSC
 }
 
